@@ -40,7 +40,7 @@ Section Reference.
 
   Definition step_op (pre : gp) (t : tree) (op : pop) : tree * step_out :=
     match op with
-    | PDel p => delete_step env ko sch o pre t p
+    | PDel p => delete_step env fo ko sch o pre t p
     | PRep u => replace_step env fo ko sch o pre t u
     | PUpd u => update_step env fo ko sch o pre t u
     end.
@@ -76,7 +76,7 @@ Section Reference.
     fold_left (fun t op => fst (step_op pre t op)) ops t.
 
   (* the operations on joined paths, as state transformers (the tree after the call) *)
-  Definition del_f (t : tree) (p : dpath) : tree := fst (delete_node_st env ko (so_shadow o) sch t p).
+  Definition del_f (t : tree) (p : dpath) : tree := fst (delete_node_st env fo ko (so_shadow o) sch t p).
   Definition upd_f (t : tree) (u : dpath * tval) : tree :=
     fst (set_node_st env fo ko (sn_opts o) (snd u) sch t (fst u)).
   Definition rep_f (t : tree) (u : dpath * tval) : tree := upd_f (del_f t (fst u)) u.
@@ -90,12 +90,12 @@ Section Reference.
 
   (* the same with outcomes: GnmiStatements.reference_set for arbitrary options *)
   Definition ref_delete (pre : gp) (t : tree) (p : gp) : result tree :=
-    bind (join_paths pre p) (fun jp => delete_node env ko (so_shadow o) sch t (elems jp)).
+    bind (join_paths pre p) (fun jp => delete_node env fo ko (so_shadow o) sch t (elems jp)).
   Definition ref_update (pre : gp) (t : tree) (u : gp * tval) : result tree :=
     bind (join_paths pre (fst u)) (fun jp => set_node env fo ko (sn_opts o) (snd u) sch t (elems jp)).
   Definition ref_replace (pre : gp) (t : tree) (u : gp * tval) : result tree :=
     bind (join_paths pre (fst u)) (fun jp =>
-    bind (delete_node env ko (so_shadow o) sch t (elems jp)) (fun t1 =>
+    bind (delete_node env fo ko (so_shadow o) sch t (elems jp)) (fun t1 =>
           set_node env fo ko (sn_opts o) (snd u) sch t1 (elems jp))).
   Definition reference_set_o (t : tree) (r : sreq) : result tree :=
     bind (fold_res (ref_delete (sr_prefix r)) (sr_deletes r) t) (fun t1 =>
@@ -177,11 +177,11 @@ Definition lm_equiv (a b : lmap) : Prop := forall q v, In (q, v) a <-> In (q, v)
 (* obs: the observation (Leaves.leaves); Inv: what is required of the tree and preserved;
    dguard / sguard: the targets covered.  "After a successful DeleteNode / SetNode the leaves are
    those of the spec." *)
-Definition leaves_after_delete_stmt (env : enum_env) (ko : key_oracle) (sch : schema) (o : sr_opts)
+Definition leaves_after_delete_stmt (env : enum_env) (fo : float_oracle) (ko : key_oracle) (sch : schema) (o : sr_opts)
   (sem : path_sem) (obs : tree -> result lmap) (Inv : tree -> Prop) (dguard : dpath -> Prop) : Prop :=
   forall t p t' m,
     Inv t -> dguard p ->
-    delete_node_st env ko (so_shadow o) sch t p = (t', Ok tt) -> obs t = Ok m ->
+    delete_node_st env fo ko (so_shadow o) sch t p = (t', Ok tt) -> obs t = Ok m ->
     Inv t' /\ exists m', obs t' = Ok m' /\ lm_equiv m' (spec_delete sem m p).
 Definition leaves_after_set_leaf_stmt (env : enum_env) (fo : float_oracle) (ko : key_oracle) (sch : schema) (o : sr_opts)
   (sem : path_sem) (obs : tree -> result lmap) (Inv : tree -> Prop) (sguard : dpath -> tval -> Prop) : Prop :=
